@@ -2,6 +2,7 @@ package main
 
 import (
 	"fmt"
+	"go/token"
 	"go/ast"
 	"go/types"
 	"strings"
@@ -167,6 +168,17 @@ func (g *Gen) enterLoop(li *loopInfo, ins []inEdge, fwdPreds []*ssa.BasicBlock) 
 			g.cur.ghost[gn] = c
 		}
 	}
+	// loop variables named explicitly by the contract are visible to clauses
+	// evaluated inside the loop body (call-site, store-site obligations)
+	if li.spec != nil {
+		for i, n := range li.spec.Vars {
+			if i < len(li.phis) && n != "_" {
+				if _, clash := g.env[n]; !clash {
+					g.env[n] = hdrEnv[n]
+				}
+			}
+		}
+	}
 	li.headerEnv = hdrEnv
 	li.headerState = g.cur.clone()
 	if li.spec != nil {
@@ -312,6 +324,18 @@ func (g *Gen) loopMods(li *loopInfo) (comps []string, ghosts []string) {
 			if st, ok := in.(*ssa.Store); ok {
 				if fn, _ := fieldNameOfAddr(st.Addr); fn != "" && g.selectors["$stored:"+fn] {
 					gs["$stored:"+fn] = true
+				}
+			}
+			if rv, ok := in.(*ssa.UnOp); ok && rv.Op == token.ARROW {
+				name := "$recv"
+				if ld, ok := rv.X.(*ssa.UnOp); ok {
+					if fn, _ := fieldNameOfAddr(ld.X); fn != "" {
+						name = "$recv." + fn
+					}
+				}
+				if g.selectors[name] {
+					gs["$called:"+name] = true
+					gs["$count:"+name] = true
 				}
 			}
 			if sd, ok := in.(*ssa.Send); ok {
